@@ -398,6 +398,10 @@ class Contract:
         self.ghost_inst = ghost_inst or {}
         self.call_only = call_only  # assumed contract: used at call sites, not verified here
 
+    def usable_at_calls(self):
+        """A contract whose postcondition is only programmatic (`post`) cannot be assumed at call sites."""
+        return bool(self.ensures or self.call_model is not None or self.call_only or (self.post is None))
+
     def inlines(self, q):
         if q in self.inline:
             return True
